@@ -324,9 +324,10 @@ def instances(tier, seed):
     mk("isin_badprefix", "isin_badprefix", {}, mode="fresh", wall_s=300)
     # the interpreter run with -O / PYTHONOPTIMIZE (assert statements compiled away): nothing the property states may rest on an assert
     mk("isin_badprefix[python -O]", "isin_badprefix", dict(noassert=True), mode="fresh", wall_s=300)
-    mk("noassert_digits[cusip,dddddddd]", "noassert_digits", dict(kind="cusip", classes="dddddddd"))
     mk("noassert_digits[sedol,dddddd]", "noassert_digits", dict(kind="sedol", classes="dddddd"))
-    mk("noassert_digits[isin,ddddddddd]", "noassert_digits", dict(kind="isin", classes="ddddddddd"))
+    if full:
+        mk("noassert_digits[cusip,dddddddd]", "noassert_digits", dict(kind="cusip", classes="dddddddd"))
+        mk("noassert_digits[isin,ddddddddd]", "noassert_digits", dict(kind="isin", classes="ddddddddd"))
     for n in (0, 8, 10, 11, 13):
         mk(f"wronglen[cusip,{n},python -O]", "wronglen", dict(kind="cusip", n=n, noassert=True), mode="fresh", wall_s=60)
         mk(f"wronglen[isin,{n},python -O]", "wronglen", dict(kind="isin", n=n, noassert=True), mode="fresh", wall_s=60)
